@@ -11,6 +11,7 @@ BOUNDS = {"hours_per_series": "N=2", "skeletons": "T1 (autoscaling), T5 (on-prem
           "fixed storage count", "failing edits": "the new value is symbolic: the raising branches of "
           "update_available_ram/compute_per_instance, on_premise_update_nb_of_instances, "
           "Storage.update_full_cumulative_storage_need and Storage.update_nb_of_instances are reached as feasible decisions",
+          "other failures": "a zero request duration (ZeroDivisionError while recomputing); dated simulations of link changes that raise, followed by plain edits",
           "sequences": "fail -> recover; fail -> fail again (other value) -> recover; each followed by one valid edit "
                        "compared with a fresh build"}
 ASSUMPTIONS = ["'restores exactly the model' = every calculated attribute and every input physically equal to the pre-edit "
@@ -19,7 +20,8 @@ ASSUMPTIONS = ["'restores exactly the model' = every calculated attribute and ev
                "system built from scratch from the final inputs"]
 
 
-def h_recover(ctx, skeleton, edit, followup, args=None, twice=False, n=2, storage_fixed=None, small_base=False, deleting=False):
+def h_recover(ctx, skeleton, edit, followup, args=None, twice=False, n=2, storage_fixed=None, small_base=False, deleting=False,
+              bad_values=None):
     spec = M.SKELETONS[skeleton](n, **(args or {}))
     if storage_fixed is not None:
         spec["storages"]["st"]["fixed_nb_of_instances"] = storage_fixed
@@ -39,14 +41,21 @@ def h_recover(ctx, skeleton, edit, followup, args=None, twice=False, n=2, storag
     failed = 0
     for k in range(attempts):
         spec_range = dict(edit.get("range") or {})
-        new = env0.fresh(f"bad{k}.{o}.{param}", **(spec_range or _sym_for(spec, o, param)))
-        ctx.assume(new != old)
+        if bad_values is not None:
+            # concrete failing value (e.g. a zero duration: the engine assumes symbolic divisors non-zero)
+            new = bad_values[k % len(bad_values)]
+        else:
+            new = env0.fresh(f"bad{k}.{o}.{param}", **(spec_range or _sym_for(spec, o, param)))
+            ctx.assume(new != old)
         try:
             setattr(objs[o], param, SourceValue(new * u(un)))
-        except ValueError as e:
-            if "should be positive" in str(e) or "not homogeneous" in str(e):
+        except Exception as e:  # noqa - any exception raised while recomputing an accepted edit is a failed edit
+            if isinstance(e, ValueError) and ("should be positive" in str(e) or "not homogeneous" in str(e)):
+                raise
+            if type(e).__name__ in ("PathAbort", "EngineError"):
                 raise
             failed += 1
+            ctx.count(f"failed_with_{type(e).__name__}")
             continue
         # accepted edit: not the subject here (C01); stop this path after noting it
         ctx.require(True, "edit accepted on this path (no failure to recover from)")
@@ -122,7 +131,43 @@ def h_recover_link(ctx, case, followup, n=2):
     compare_live_fresh(ctx, objs, spec2, env2, f"later edit after recovering from the failed {case}")
 
 
-HARNESSES = {"recover": h_recover, "recover_link": h_recover_link}
+def h_failed_sim(ctx, case, followups, n=2):
+    """a dated what-if simulation of a *link* change whose recomputation raises (heavy job on an on-premise server with a
+    fixed count): the baseline is untouched, and later plain edits of inputs the simulation had to copy (ancestors of
+    the recomputed values) behave as on a fresh system"""
+    from efootprint.abstract_modeling_classes.modeling_update import ModelingUpdate
+    spec = M.T5(n, type1="on-premise", type2="serverless", fixed1=40)
+    spec["jobs"]["heavy"] = {"server": "srv"}
+    spec["steps"]["step_h"] = {"jobs": ["heavy"]}
+    sym = traffic_syms(spec)
+    sym["heavy.ram_needed"] = dict(lo=0, hi=10 ** 9, nice=(10 ** 5, 10 ** 8))
+    sym.update(collect_slots(spec, followups))
+    env0 = M.Env(ctx, symbolic=sym)
+    objs = M.build(spec, env0)
+    V.observe_system(ctx, objs, "0.")
+    before = S.snapshot(objs)
+    first = min(V.utc_key(ts) for ts in objs["up"].utc_hourly_usage_journey_starts.value.index)
+    when = (first + (first - first)).to_pydatetime() if case.endswith("@first") else (first + __import__("datetime").timedelta(hours=1)).to_pydatetime()
+    changes = {"assign_jobs": lambda: [[objs["step"].jobs, [objs["heavy"], objs["job"], objs["job2"]]]],
+               "append_step": lambda: [[objs["uj"].uj_steps, [objs["step"], objs["step_h"]]]],
+               "job_server": lambda: [[objs["job2"].server, objs["srv"]], [objs["job2"].ram_needed, SourceValue(env0.get("heavy.ram_needed", 1) * u.MB)]]}[case.split("@")[0]]()
+    try:
+        ModelingUpdate(changes, when)
+    except ValueError:
+        pass
+    else:
+        ctx.require(True, "simulation accepted on this path (no failure to recover from)")
+        return
+    S.compare_snapshots(ctx, before, S.snapshot(objs), f"after the failed simulation of {case}", identity=False, values=True,
+                        graph=False, skip_attrs=("#active_containers",))
+    env, sp = env0, spec
+    for i, fu in enumerate(followups):
+        e2 = resolve(ctx, env, env0, sp, fu, 9 + i)
+        sp, env = E.apply(objs, sp, env, e2)
+        compare_live_fresh(ctx, objs, sp, env, f"edit {i + 1} ({fu['obj']}.{fu['param']}) after the failed simulation of {case}")
+
+
+HARNESSES = {"recover": h_recover, "recover_link": h_recover_link, "failed_sim": h_failed_sim}
 FIX = dict(obj="srv", param="fixed_nb_of_instances", k="num", range=dict(lo=0, lo_strict=True, hi=10 ** 6, nice=(1, 60)))
 STFIX = dict(obj="st", param="fixed_nb_of_instances", k="num", range=dict(lo=0, lo_strict=True, hi=10 ** 6, nice=(1, 60)))
 BASE = dict(obj="st", param="base_storage_need", k="num", range=dict(lo=0, hi=10, nice=(0, 0.001)))
@@ -148,7 +193,14 @@ def plan(tier, seed):
          ("recover", dict(skeleton="T7", args={"offset_hours": 0}, deleting=True, edit=BASE, followup=num("job", "data_transferred"))),
          ("recover", dict(skeleton="T7", args={"offset_hours": 1}, deleting=True, edit=BASE, followup=num("dev", "power"), twice=True)),
          ("recover_link", dict(case="assign_jobs", followup=num("job2", "ram_needed"))),
-         ("recover_link", dict(case="append_step", followup=num("dev", "power")))]
+         ("recover_link", dict(case="append_step", followup=num("dev", "power"))),
+         # recomputation failing with another exception than ValueError (division by a zero duration)
+         ("recover", dict(skeleton="T1", edit=num("job", "request_duration"), bad_values=[0], followup=num("job", "data_transferred"))),
+         ("recover", dict(skeleton="T5", args=T5f, edit=num("job2", "request_duration"), bad_values=[0, 0], followup=num("job2", "data_stored"), twice=True)),
+         # failing dated simulations of link changes, then edits of inputs the simulation had copied
+         ("failed_sim", dict(case="assign_jobs", followups=[num("srv", "ram"), num("step", "user_time_spent")])),
+         ("failed_sim", dict(case="append_step@first", followups=[num("fr", "average_carbon_intensity"), num("job", "data_transferred")])),
+         ("failed_sim", dict(case="job_server", followups=[num("srv", "ram"), num("dev", "power")]))]
     if tier == "thorough":
         for sk, a in (("T3", None), ("T9", None), ("T7", None)):
             for ed, fu in ((num("srv", "base_ram_consumption"), num("job", "data_transferred")), (num("srv", "ram"), num("dev", "power")),
